@@ -1,4 +1,4 @@
-(* Wire glue for C17, bind part (ops 1701-1705). *)
+(* Wire glue for C17, bind part (ops 1701-1706). *)
 From Fzf Require Import Prelude Val BindSpec BindModel.
 Open Scope Z_scope.
 
@@ -38,4 +38,7 @@ Definition dispatch_bind (op : Z) (a : val) : option val :=
   else if op =? 1703 then Some (match mask_action_contents (as_str a) with Ok m => VL [vstr m] | Err _ => verr end)
   else if op =? 1704 then Some (enc_out (fun l => VL (map enc_action l)) (parse_single_action_list (as_str a)))
   else if op =? 1705 then Some (enc_out (fun l => VL (map enc_key l)) (Ok (parse_key_chords (as_str a))))
+  else if op =? 1706 then
+    let ks := as_strs a in
+    Some (VL [vstr (join COMMA ks); vbool (nonemptyb ks && forallb key_spelling_ok ks); VL (map enc_key (keys_denote ks))])
   else None.
